@@ -167,6 +167,9 @@ def finish(report, engine, out_dir=None, print_=print):
             'renamed_functions_recognised': dict(engine.prog.renamed),
             'renamed_attributes_recognised': dict(getattr(
                 engine.prog, 'renamed_attrs', {})),
+            'new_helpers_inlined_for_analysis': [
+                {'helper': q, 'sites': n, 'kept_as_function': k}
+                for q, n, k in getattr(engine.prog, 'deextracted', [])],
         },
         'assumptions': report.assumptions,
         'wall_s': round(time.time() - report.t0 + engine.build_s, 3),
